@@ -233,6 +233,11 @@ def main():
             rc |= run_property(p, args.tier, facts_by_cfg, args.repo, seed)
         return rc
     finally:
+        try:
+            from rules import witness
+            witness.cleanup()
+        except Exception:
+            pass
         for t in tmps:
             shutil.rmtree(t, ignore_errors=True)
 
